@@ -61,6 +61,7 @@
 #endif
 
 #include "edit_distance.h"
+#include "verif_hooks.h"
 
 using namespace std;
 
@@ -1037,6 +1038,7 @@ bool ReplaceContent(const string& file_dst, const string& new_content,
     *err = strerror(errno);
     return false;
   }
+  VERIF_CRASH_POINT("replace-between-unlink-and-rename");
 
   if (rename(new_content.c_str(), file_dst.c_str()) < 0) {
     *err = strerror(errno);
